@@ -481,7 +481,9 @@ Warning: zone `%.*s' skipped: not present in global zone database",
 		      (int)(ln + lz - lp), lp);
 		return NUL_ZNOFF;
 	} else if ((znp = tzm_find_zn(lp, ln + lz - lp)) == -1U) {
-		/* brilliant, can't add anything */
+		/* brilliant, can't add anything, don't keep that to ourselves */
+		error("\
+Warning: key `%s' skipped: zone name pool is full", ln);
 		return NUL_ZNOFF;
 	}
 	tzm_add_mn(ln, lp - ln - 1U, znp);
